@@ -10,9 +10,16 @@ def func_list_class(aa):
     """Harness subclass of AbstractLinearObjFuncList with an explicit (random) mapping matrix."""
     if "Func" not in _cache:
         class VerifFuncList(aa.AbstractLinearObjFuncList):
-            def __init__(self, grid, M, regularization=None):
+            def __init__(self, grid, M, regularization=None, override=None):
                 super().__init__(grid=grid, regularization=regularization)
                 self._M = M
+                self._override = override
+
+            @property
+            def operated_mapping_matrix_override(self):
+                # a linear object may supply its PSF-operated matrix itself; here it is the correctly blurred matrix, so that the
+                # object describes the same linear model with and without the override
+                return self._override
 
             @property
             def params(self):
@@ -133,7 +140,7 @@ def mapper(aa, rng, mask, over_sampler, kind, reg, grid_sub=None, o=0, border_re
     return mp, {"kind": kind, "distortion": dk}
 
 
-def linear_objects(aa, rng, case, nobj=None, kinds=("rect", "del", "func"), allow_unregularized=True, reg_factory=None):
+def linear_objects(aa, rng, case, nobj=None, kinds=("rect", "del", "func"), allow_unregularized=True, reg_factory=None, overrides=False):
     ds = case["ds"]
     mask = case["mask"]
     n = int((~case["m"]).sum())
@@ -146,12 +153,15 @@ def linear_objects(aa, rng, case, nobj=None, kinds=("rect", "del", "func"), allo
         unreg = allow_unregularized and rng.random() < 0.25
         if kind == "func":
             p = int(rng.integers(1, 3))
-            M, mk = gen.mapping_matrix(rng, n, p, kind=str(rng.choice(["fractional", "signed", "tiny", "signed_sparse"])))
+            M, mk = gen.mapping_matrix(rng, n, p, kind=str(rng.choice(["fractional", "signed", "tiny", "signed_sparse", "cancelling"])))
             if not np.all(np.abs(M).sum(0) > 0):
                 M[0, :] += 1.0
             reg = None if unreg else aa.reg.Zeroth(coefficient=float(rng.uniform(0.2, 2)))
-            objs.append(Func(grid=ds.grids.uniform, M=M, regularization=reg))
-            desc.append({"kind": "func", "matrix": mk, "params": p, "regularized": reg is not None})
+            override = None
+            if overrides and rng.random() < 0.4:
+                override = np.asarray(ds.convolver.convolve_mapping_matrix(mapping_matrix=M.copy()), float)
+            objs.append(Func(grid=ds.grids.uniform, M=M, regularization=reg, override=override))
+            desc.append({"kind": "func", "matrix": mk, "params": p, "regularized": reg is not None, "operated_override": override is not None})
             continue
         if unreg:
             reg = None
